@@ -44,8 +44,8 @@ claimed = {
          "bufio.Scanner / time.Parse / Session.Open are executor models (line lists stand for files; natively the real files are written and read by the real code); the YAML text between converter and reader (yaml.Marshal/Unmarshal) is taken as the identity; 'byte-identical results' is reduced to 'identical state handed to the model'.", "A3 C13"),
  "C14": ("readConfig / commandlineOverride (real code) executed symbolically with every scalar key of Config present or absent on the batch line under its own symbolic boolean and with a symbolic value, a configuration file that exists or not and sets an arbitrary subset of the keys to arbitrary values, and a key that does not exist: for every key the effective value (and the run state derived from it) is the batch-line value, else the file value, else the default; ascending and descending map iteration order; token loop of Run lifted: key=value tokens in 16 orders with symbolic digits give the value used.",
          "reflect is the executor's own model of the subset used (DESIGN A1); yaml.Unmarshal is replaced by a harness model that writes the planned keys through reflect and the real UnmarshalYAML methods; co-simulated against the real yaml/reflect libraries on solver models; string keys from four candidate families.", "A3 C14"),
- "C09": ("Reduced to the parts of PhytoOut that can be cut out as regions: the development stage index never decreases, advances by at most one and only when the stage's temperature sum is reached, never beyond the last stage, and records the phenology day; the rooting depth after a day is within the profile and the soil's root limit for any value of the root function.",
-         "Organ masses, LAI, assimilate pool, N concentrations and stress factors (the growth part: ~60 transcendental calls, quotients of season-long sums) are outside; root() stubbed by arbitrary results.", "A3 C09"),
+ "C09": ("Parts of PhytoOut cut out as regions and executed from an arbitrary valid crop state: the development stage index never decreases, advances by at most one and only when the stage's temperature sum is reached, never beyond the last stage, and records the phenology day; the rooting depth is within the profile and the soil's root limit for any value of the root function (contract proved on the real root()); daily N uptake per rooted layer >= 0 and leaves the residual; the growth step (N stress factor, assimilate partitioning, dying, leaf area, above-ground/root mass, assimilate pool; 3-5 organs, cereal / beet / permanent crop): stress factor in [0,1], no organ mass, LAI, biomass or pool negative, above-ground mass positive, dead mass <= organ mass, crop N content only loses the dead leaf/stem N; the nine N-content functions give positive concentrations; tissue N concentrations: root concentration between its floor and the stage maximum, shoot N + root N = crop N content + uptake + fixation, shoot concentration >= 0 outside two stated corners.",
+         "Real arithmetic, exp/pow uninterpreted with sign/monotonicity axioms; root() stubbed by arbitrary results within its proved contract; the photosynthesis routine's outputs are inputs (>= 0); two region-level corners of the shoot N concentration are outside (DESIGN A3).", "A3 C09"),
 }
 props = [json.loads(l) for l in open(os.path.join(ROOT, 'properties.jsonl'))]
 reasons = {}
